@@ -270,12 +270,18 @@ func (e *Engine) callByContract(fr *Frame, st *State, ins ssa.Instruction, c *Co
 		ptypes = ptypes[len(ptypes)-len(args):]
 	}
 	vars := map[string]SVal{}
-	for i, n := range names {
-		vars[n] = SVal{V: e.materialize(args[i], ptypes[i]), T: ptypes[i]}
+	isPlace := func(v Val) bool {
+		return v.P != nil && v.T == nil && v.Fs == nil && !((v.P.Kind == PField || v.P.Kind == PBox) && len(v.P.Path) == 0)
 	}
 	var as []*Term
-	for i := range args {
-		as = append(as, e.materialize(args[i], ptypes[i]).flat()...)
+	for i, n := range names {
+		if isPlace(args[i]) {
+			// an interior / local pointer: the contract may only use it through deref()
+			vars[n] = SVal{V: args[i], T: ptypes[i]}
+			continue
+		}
+		vars[n] = SVal{V: e.materialize(args[i], ptypes[i]), T: ptypes[i]}
+		as = append(as, vars[n].V.flat()...)
 	}
 	return e.applyContract(fr, st, ins, c, key, vars, resType, as), nil
 }
@@ -438,6 +444,13 @@ func (e *Engine) havocItem(st *State, env *SpecEnv, item string) {
 			st.bigSet(v.V.T, Fresh("hv_big", SInt))
 		case "obj":
 			e.havocObject(st, v.V, v.T)
+		case "deref":
+			if v.V.P != nil && v.V.T == nil {
+				pt := subType(v.V.P.Typ, v.V.P.Path)
+				st.store(v.V.P, st.freshVal("hv_deref", pt))
+			} else {
+				e.havocObject(st, v.V, v.T)
+			}
 		case "dyn":
 			// the object behind an interface value: needs a statically known dynamic type
 			if id, ok := v.V.Fs[0].T.intVal(); ok && id.IsInt64() && typeIDTypes[id.Int64()] != nil {
